@@ -41,7 +41,7 @@ func defFor(check string) *checkDef {
 			env:      []string{"GORACE=halt_on_error=1 exitcode=66"},
 			variants: []string{"C15", "C15", "C15close", "C15", "C15knownV2", "C15", "C15close", "C15knownStats"},
 			budget:   map[string]tierCfg{"quick": {700, 80}, "thorough": {40000, 1800}},
-			rule: "three kinds of simulated run under a -race build of the simulator: (a) concurrent windows: every window releases a seeded SET of 2-6 parked actors at once (clients batching, several clients reading one shared Reader through the optimised conjunction/disjunction paths, stored-field loads, Stats()/MemoryUsed(), reader acquisition, persister, merger, closer), so code regions released together have no happens-before edge and any conflicting access pair is reported by the race detector whatever the real timing; the harness is quiet there (no shared mutex between actors); (b) Close at an arbitrary scheduled moment once callers have returned, one release per window (replayable): Close must return (deterministic hang verdict), the three loops must exit, the directory must reopen with every acknowledged batch in a state the index went through; (c) a dedicated unshielded ice-v2 run that exercises the listed known finding. distinct = distinct release sequences; non-trivial = background step interleaved between client operations",
+			rule: "three kinds of simulated run under a -race build of the simulator: (a) concurrent windows: every window releases a seeded SET of 2-6 parked actors at once (clients batching, several clients reading one shared held Reader and several clients taking a fresh Writer.Reader() in the same window and searching it at once - first use of a snapshot's caches - through the optimised conjunction/disjunction paths and generated queries of every type, stored-field loads, MemoryUsed(), reader acquisition, persister, merger, closer), so code regions released together have no happens-before edge and any conflicting access pair is reported by the race detector whatever the real timing; the harness is quiet there (no shared mutex between actors); (b) Close at an arbitrary scheduled moment once callers have returned, one release per window (replayable): Close must return (deterministic hang verdict), the three loops must exit, the directory must reopen with every acknowledged batch in a state the index went through; (c) a dedicated unshielded ice-v2 run that exercises the listed known finding. distinct = distinct release sequences; non-trivial = background step interleaved between client operations",
 			assume: append([]string{"the Go race detector reports only real races; which regions overlap is decided by the tape, the detector's verdict does not depend on real timing", "for ice v2 segments stored-field access is serialised by the harness wrapper (shield) in (a) so that the listed known race cannot mask others"}, commonAssume...),
 			probes: []string{"concurrent-windows", "close-while-background-work-in-progress", "reopened-after-early-close"}}
 	case "C08":
@@ -72,7 +72,7 @@ func defFor(check string) *checkDef {
 			budget:   map[string]tierCfg{"quick": {40, 50}, "thorough": {3000, 1800}},
 			rule: "storage-corruption fault injection on the snapshot files simulated runs actually produce (0..many segments, with and without deleted bitmaps; every fourth run is a no-merge run of ~200 batches so that the file crosses the 4096-byte read buffer). Round trip: every produced snapshot is decoded with the exported decoder and compared (ids, types, versions, deleted sets) with what was handed to the encoder. Rejection, per chosen file: every truncation length, every single-bit flip (quick tier on files > 300 bytes: header, trailer, the 4096 boundary and a seeded sample), appended tails (1 byte, 4 bytes, a copy of itself), zero-fill, seeded garbage, every uvarint length field replaced by 2^31/2^40/2^63/2^64-1; the damaged file is the newest snapshot of an image that also holds the older intact ones; the image is opened in a child process (RLIMIT_AS) through the mmap and the non-mmap loader: no death, no panic, allocation <= 64 x directory size + 16 MiB, content = the older snapshot's state. evaluations = simulated runs; crash_images_probed = damaged images opened. Ids up to 2^64-1 and coverage-guided fuzzing of the decoder are input generation, outside this technique",
 			assume: append([]string{"CRC-32 detects every single-bit flip and every burst <= 32 bits; a truncation is accepted with probability 2^-32 per length (would be reported)"}, commonAssume...),
-			probes: []string{"snapshot-over-4096-bytes", "damaged-snapshot-with-deleted-bitmap"}}
+			probes: []string{"snapshot-over-4096-bytes", "snapshot-over-4096-bytes-with-many-deleted-bitmaps", "damaged-snapshot-with-deleted-bitmap"}}
 	case "C14":
 		return &checkDef{property: "C14", level: "fault_enumeration", timeout: 1200 * time.Second,
 			budget: map[string]tierCfg{"quick": {48, 70}, "thorough": {4000, 1800}},
@@ -105,7 +105,7 @@ func defFor(check string) *checkDef {
 			budget: map[string]tierCfg{"quick": {2500, 75}, "thorough": {100000, 1500}},
 			rule: "one simulated run per seed in a merge-heavy configuration (tiers 2-3, floor 1-4, tasks of 2-10 segments, in-memory merge threshold 2-4); while a merge is between its Merge seam and its introduction the generator aims deletes/updates (including delete-all) at documents of the merging segments; after every window the monitor reader must equal the abstract index, at quiescence the reopened on-disk index too. distinct = distinct release sequences; non-trivial = background step interleaved between client operations",
 			assume: commonAssume,
-			probes: []string{"delete-into-merge-window", "merge-skipped-all-deleted", "in-memory-merge", "file-merge", "merge-3plus-inputs", "file-merge-empty-segment"}}
+			probes: []string{"delete-into-merge-window", "merge-skipped-all-deleted", "in-memory-merge", "file-merge", "merge-3plus-inputs"}}
 	}
 	return nil
 }
